@@ -11,20 +11,30 @@ namespace TM.C02
 theorem sliceDetails_rejects (s : Sl) (d : Int) :
     (∃ tag, sliceDetails (some s) d = .error (.err tag)) ↔
       (s.start > s.stop ∨ s.start < 0 ∨ s.start ≥ d ∨ (s.step = 0 ∧ s.stop - s.start > 1)) := by
-  sorry
+  rw [sliceDetails_some]
+  constructor
+  · intro ⟨tag, h⟩
+    split at h
+    · assumption
+    · cases h
+  · intro h
+    rw [if_pos h]
+    repeat' split
+    all_goals exact ⟨_, rfl⟩
 
 /-- An accepted slice is returned with its end clamped to the axis length; it never panics. -/
 theorem sliceDetails_accepts (s : Sl) (d : Int)
     (h : ¬ (s.start > s.stop ∨ s.start < 0 ∨ s.start ≥ d ∨ (s.step = 0 ∧ s.stop - s.start > 1))) :
     sliceDetails (some s) d = .ok (s.start, min s.stop d, s.step) := by
-  sorry
+  rw [sliceDetails_some, if_neg h]
 
 /-- M and S reject the same per-axis requests (S additionally declares empty ranges and negative
     steps outside its domain). -/
 theorem axisSel_reject_iff (s : Sl) (d : Int) :
     (match axisSel (some s) d with | .reject => True | _ => False) ↔
       (∃ tag, sliceDetails (some s) d = .error (.err tag)) := by
-  sorry
+  rw [sliceDetails_rejects, ← axisSel_some_reject_iff]
+  cases axisSel (some s) d <;> simp
 
 /-- Per axis: result position `c` of the sliced pattern addresses source position
     `start + c*step` (a single index or zero step contributes `start` only). -/
@@ -33,7 +43,7 @@ theorem sliceAxis_addr (isVec : Bool) (od i : Nat) (size stride : Int) (sl : Opt
     (hd : sliceDetails sl size = .ok (start, stop, step))
     (h : sliceAxis isVec od i size stride sl = .ok r) (c : Int) :
     r.dStart + c * r.stride = (start + c * (if step > 0 then step else 1)) * stride := by
-  sorry
+  exact sliceAxis_addr' isVec od i size stride sl r start stop step hd h c
 
 /-- Per axis: number of entries. For `step > 0` it is `ceil((end-start)/step)` on every axis but the
     leading one (defect F2: axis 0 rounds down), never less than one. -/
@@ -43,12 +53,13 @@ theorem sliceAxis_len_partial (isVec : Bool) (od i : Nat) (size stride : Int) (s
     (hx : i > 0 ∨ (stop - start) % step = 0)
     (h : sliceAxis isVec od i size stride sl = .ok r) :
     r.n = (stop - start + step - 1) / step := by
-  sorry
+  rw [(sliceAxis_ok isVec od i size stride sl r start stop step hd h).2.2]
+  exact axisN_len i start stop step hstep hlt hx
 
 /-- The full statement fails on the leading axis (finding F2): witness `a[0:5:2]` of a length-5 axis. -/
 theorem sliceAxis_len_full_fails :
     ∃ r, sliceAxis true 0 0 5 1 (some ⟨0, 5, 2⟩) = .ok r ∧ r.n ≠ (5 - 0 + 2 - 1) / 2 := by
-  sorry
+  exact ⟨_, rfl, by decide⟩
 
 /-- effective (start, step) of every axis as `SliceDetails` reports them (step ≤ 0 counts as 1:
     a single index or zero step selects one position) -/
@@ -68,7 +79,8 @@ theorem apSLoop_addr (isVec : Bool) (od : Nat) (shape : Shape) (strides : List I
     rs.length = shape.length ∧
     sumI (rs.map (·.dStart)) + dot c (rs.map (·.stride)) =
       dot (List.zipWith (fun (p : Int × Int) ci => p.1 + ci * p.2) (selOf sls shape) c) strides := by
-  sorry
+  exact apSLoop_addr' isVec od selOf (fun sls => by cases sls <;> rfl) (fun _ _ _ => rfl)
+    shape strides sls rs i h c hc
 
 /-- Dropping axes of extent one at coordinate zero does not change the address. -/
 theorem drop_axis_addr (ns strides : List Int) (keep : List Bool) (c : List Int)
@@ -77,12 +89,12 @@ theorem drop_axis_addr (ns strides : List Int) (keep : List Bool) (c : List Int)
     dot c strides =
       dot ((c.zip keep).filterMap (fun (x, b) => if b then some x else none))
           ((strides.zip keep).filterMap (fun (x, b) => if b then some x else none)) := by
-  sorry
+  exact drop_axis_addr' strides keep c (hc.trans hl) (hk.trans hc.symm) hz
 
 /-- A view shares the buffer of its source and its window lies inside the source's window. -/
 theorem slice_shares (t v : Dense) (sls : List (Option Sl)) (h : t.slice sls = .ok v) :
     v.win.buf = t.win.buf ∧ t.win.off ≤ v.win.off ∧ v.win.off + v.win.len ≤ t.win.off + t.win.cap ∧ v.view = true := by
-  sorry
+  exact slice_shares' t v sls h
 
 -- non-vacuity / concrete instances
 example : (match sliceDetails (some ⟨1, 7, 2⟩) 5 with | .ok (1, 5, 2) => true | _ => false) = true := by decide
